@@ -131,7 +131,7 @@ FilesOf(D, dirs, h, k) ==
           LET x == fr[r] IN
           [path |-> Append(D[k].path, x.name), lba |-> x.extentL, len |-> x.dataLenL, multi |-> x.flags = FlagMultiExtent,
            wins |-> IF x.dataLenL = PZero THEN << >>
-                    ELSE << [rel |-> PZero, alt |-> << >>,
+                    ELSE << [rel |-> PZero, alt |-> << >>, altAt |-> [off |-> PZero, srcs |-> << >>],
                              runs |-> << [srcs |-> <<D[k].files[x.fileIdx].cid>>, off |-> x.base,
                                           len |-> IF PLe(x.dataLenL, P(SectorSize)) THEN PInt(x.dataLenL) ELSE SectorSize] >>] >>,
            padZero |-> TRUE]]
